@@ -11,7 +11,7 @@ META = {
                  "compressor, and every produced chunk is forwarded with length capacity - avail_out for the capacity that was "
                  "assigned to avail_out; R14.3 only OK/STREAM_END are accepted from the compressor, anything else throws; R14.4 "
                  "format constants (gzip wrapper windowBits 15+16, xz easy encoder, suffixes .gz/.xz); R14.5 one complete stream per "
-                 "output (close -> inner rotate -> open). R14.2 (release): the compressor may be released in close() after the finishing loop or kept for the next output, never before the stream is finished. R14.4 no-partial-reset: deflateResetKeep / deflateCopy / deflateSetDictionary / deflatePrime are not used by the writers (positive control). R14.6 = the name obligations of R15.1/R15.2 (the suffix is part of the name written and published). R14.7: a data member that is always assigned the same function of other members (cdnsverif/derived.py) is recomputed by every member function that changes those members; the lazy form under a validity flag / stored key is refreshed before every read and invalidated after every change. R14.2 input window = the stores that reach the loop.",
+                 "output (close -> inner rotate -> open). R14.2 (release): the compressor may be released in close() after the finishing loop or kept for the next output, never before the stream is finished. R14.4 no-partial-reset: deflateResetKeep / deflateCopy / deflateSetDictionary / deflatePrime are not used by the writers (positive control). R14.6 = the name obligations of R15.1/R15.2 (the suffix is part of the name written and published). R14.7: a data member that is always assigned the same function of other members (cdnsverif/derived.py) is recomputed by every member function that changes those members; the lazy form under a validity flag / stored key is refreshed before every read and invalidated after every change. R14.2 input window = the stores that reach the loop. R14.2 also: no return in front of the consuming loop for a non-empty chunk unless avail_in == 0. R14.3 accepts a step that reports a refused code through a bool member of its result struct which every caller tests straight after the call and throws on.",
     "explanation": "Structural necessary conditions over writer.cpp; that decompression reproduces the input is zlib/liblzma "
                    "semantics and is not decided.",
     "trusted_base": ["clang 14 AST", "zlib deflate / liblzma lzma_code contracts (avail_in/avail_out bookkeeping)"],
